@@ -24,6 +24,7 @@ global size_of usize == 8;
 //@end
 spec fn char_off(s: Seq<char>, k: int) -> int { encode_utf8(s.subrange(0, k)).len() as int }
 //@include specs/cont_specs.rs.inc
+//@include specs/m2o_ok.rs.inc
 //@include specs/bufro_specs.rs.inc
 //@include specs/node_specs.rs.inc
 //@include specs/coarsen_specs.rs.inc
